@@ -2,6 +2,7 @@ package props
 
 import (
 	"fmt"
+	"github.com/osteele/liquid/values"
 	"sort"
 	"strings"
 	"testing"
@@ -32,6 +33,15 @@ func c15Realise(elems []*hx.Spec, rep string) (any, bool) {
 	switch rep {
 	case "":
 		return a.Realise(), true
+	case "emptyrange", "emptyrange2":
+		// a range that selects nothing is an empty array
+		if len(elems) != 0 {
+			return nil, false
+		}
+		if rep == "emptyrange" {
+			return values.NewRange(1, 0), true
+		}
+		return values.NewRange(3, -2), true
 	case "mapslice":
 		ms := yaml.MapSlice{}
 		for i, e := range elems {
@@ -299,6 +309,7 @@ var c15Alphabets = [][]*hx.Spec{
 	{hx.SStr("a"), hx.SStr("b"), hx.SStr("B")},
 	{hx.SFloat(0.5), hx.SFloat(1.5), hx.SFloat(2)},
 	{hx.SInt(1), hx.SFloat(1), hx.SInt(2), hx.SFloat(0.5)}, // equal values of different numeric kinds
+	{hx.SBool(true), hx.SBool(false), hx.SNil()},           // false is not nil
 }
 
 var c15Filters = []string{"sort", "reverse", "uniq", "compact", "first", "last", "size", "join", "concat"}
@@ -345,7 +356,7 @@ func TestC15(t *testing.T) {
 	maxLen := env.Pick(3, 4)
 	app := c15Apply.On(col, fmt.Sprintf("bounded-exhaustive: all arrays of length 0..%d over {0,1,2}, {0.5,1.5,2}, {\"a\",\"b\",\"B\"}, each with and without nil, in every Go representation they can take ([]any, typed slice, fixed array, Go range for integer intervals, ordered YAML map values) x {sort reverse uniq compact first last size join concat}; then rapid: arrays up to length 8, arrays of maps with present/absent/nil key through sort: key and map: key, and chains of up to 4 filters. Oracle: reference functions (sort: the unique ascending order, entries lacking the key first, unspecified when ties/mixed kinds/nil elements leave it open; uniq by reference ==; join skips nil); the input iterates the same afterwards and the Go binding's deep fingerprint is unchanged; every representation renders exactly like the equal []any. Non-trivial: >= 2 elements of which >= 2 distinct; distinct by (filter, array, representation)", maxLen), false)
 	idx := 0
-	reps := []string{"", "typed", "array", "range", "mapslice", "typed:int8", "typed:int32", "typed:int64", "typed:uint16", "typed:uint", "typed:float32"}
+	reps := []string{"", "typed", "array", "range", "mapslice", "typed:int8", "typed:int32", "typed:int64", "typed:uint16", "typed:uint", "typed:float32", "emptyrange", "emptyrange2"}
 	var rec func(al []*hx.Spec, cur []*hx.Spec, n int)
 	rec = func(al []*hx.Spec, cur []*hx.Spec, n int) {
 		if len(cur) == n {
